@@ -759,7 +759,7 @@ def phi_4D_admix_into_4(phi, f1,f2,f3, xx,yy,zz,aa):
         phi (array): The updated phi array.
     """
     _check_admix_proportions(f1, f2, f3)
-    Demes.cache.append(Demes.Pulse(sources=[1,2,3], dest=1, proportions=[f1, f2, f3]))
+    Demes.cache.append(Demes.Pulse(sources=[1,2,3], dest=4, proportions=[f1, f2, f3]))
     lower_w_index, upper_w_index, frac_lower, frac_upper, norm \
             = _four_pop_admixture_intermediates(phi, f1,f2,f3, xx,yy,zz,aa, aa)
 
@@ -878,6 +878,7 @@ def phi_5D_admix_into_1(phi, f2,f3,f4,f5, xx,yy,zz,aa,bb):
         phi (array): The updated phi array.
     """
     _check_admix_proportions(f2, f3, f4, f5)
+    Demes.cache.append(Demes.Pulse(sources=[2,3,4,5], dest=1, proportions=[f2,f3,f4,f5]))
     lower_w_index, upper_w_index, frac_lower, frac_upper, norm \
             = _five_pop_admixture_intermediates(phi, 1-f2-f3-f4-f5,f2,f3,f4, xx,yy,zz,aa,bb, xx)
 
@@ -919,6 +920,7 @@ def phi_5D_admix_into_2(phi, f1,f3,f4,f5, xx,yy,zz,aa,bb):
         phi (array): The updated phi array.
     """
     _check_admix_proportions(f1, f3, f4, f5)
+    Demes.cache.append(Demes.Pulse(sources=[1,3,4,5], dest=2, proportions=[f1,f3,f4,f5]))
     lower_w_index, upper_w_index, frac_lower, frac_upper, norm \
             = _five_pop_admixture_intermediates(phi, f1, 1-f1-f3-f4-f5,f3,f4, xx,yy,zz,aa,bb, yy)
 
@@ -960,6 +962,7 @@ def phi_5D_admix_into_3(phi, f1,f2,f4,f5, xx,yy,zz,aa,bb):
         phi (array): The updated phi array.
     """
     _check_admix_proportions(f1, f2, f4, f5)
+    Demes.cache.append(Demes.Pulse(sources=[1,2,4,5], dest=3, proportions=[f1,f2,f4,f5]))
     lower_w_index, upper_w_index, frac_lower, frac_upper, norm \
             = _five_pop_admixture_intermediates(phi, f1, f2, 1-f1-f2-f4-f5,f4, xx,yy,zz,aa,bb, zz)
 
@@ -1001,6 +1004,7 @@ def phi_5D_admix_into_4(phi, f1,f2,f3,f5, xx,yy,zz,aa,bb):
         phi (array): The updated phi array.
     """
     _check_admix_proportions(f1, f2, f3, f5)
+    Demes.cache.append(Demes.Pulse(sources=[1,2,3,5], dest=4, proportions=[f1,f2,f3,f5]))
     lower_w_index, upper_w_index, frac_lower, frac_upper, norm \
             = _five_pop_admixture_intermediates(phi, f1, f2, f3, 1-f1-f2-f3-f5, xx,yy,zz,aa,bb, aa)
 
@@ -1042,6 +1046,7 @@ def phi_5D_admix_into_5(phi, f1,f2,f3,f4, xx,yy,zz,aa,bb):
         phi (array): The updated phi array.
     """
     _check_admix_proportions(f1, f2, f3, f4)
+    Demes.cache.append(Demes.Pulse(sources=[1,2,3,4], dest=5, proportions=[f1,f2,f3,f4]))
     lower_w_index, upper_w_index, frac_lower, frac_upper, norm \
             = _five_pop_admixture_intermediates(phi, f1, f2, f3, f4, xx,yy,zz,aa,bb, bb)
 
